@@ -128,6 +128,8 @@ pub struct Pipe {
     pub label: String,
     /// writes by the parent process: (event seq before the write, cumulative length after it)
     pub wlog: Vec<(u64, usize)>,
+    /// parent thread that created the pipe
+    pub creator: Option<u8>,
     pub w_closed_seq: Option<u64>,
     pub r_closed_seq: Option<u64>,
 }
@@ -307,6 +309,8 @@ pub struct Proc {
     /// index of the next fault-eligible pre-exec call / exec candidate
     pub cc_idx: u32,
     pub exec_idx: u32,
+    /// parent thread that forked this process
+    pub forked_by: Option<u8>,
 }
 
 #[derive(Clone, Debug, PartialEq, Eq, Serialize, Deserialize)]
@@ -397,6 +401,8 @@ pub struct Kernel {
     pub ebadf: Vec<String>,
     pub kill_log: Vec<KillRec>,
     pub wait_log: Vec<WaitRec>,
+    /// spawn index of the last fork made by each parent thread
+    pub last_fork_of_thread: [Option<usize>; 8],
 }
 
 #[derive(Clone, Debug)]
@@ -512,6 +518,7 @@ impl Kernel {
             ebadf: vec![],
             kill_log: vec![],
             wait_log: vec![],
+            last_fork_of_thread: [None; 8],
         };
         // the parent process with its three inherited terminal streams
         let mut p = Proc::blank(PARENT_PID, 1, PKind::Parent);
@@ -680,6 +687,10 @@ impl Kernel {
             was_full: false,
             label: String::new(),
             wlog: vec![],
+            creator: match who {
+                Ent::Par(t) => Some(t),
+                _ => None,
+            },
             w_closed_seq: None,
             r_closed_seq: None,
         });
@@ -1448,6 +1459,7 @@ impl Proc {
             steps: 0,
             cc_idx: 0,
             exec_idx: 0,
+            forked_by: None,
         }
     }
     pub fn alive(&self) -> bool {
